@@ -39,6 +39,8 @@ type frame struct {
 	loopN    *int
 	lastIter *T // map operand of the last mapiterinit call
 	results  []types.Object
+	// brkSwitch: a break statement ends the enclosing switch clause (not a loop)
+	brkSwitch bool
 }
 
 const (
